@@ -293,6 +293,30 @@ fn shard(seed: u64, shard: u64, shards: u64, tier: Tier) -> Tally {
         let text = render_ts(tt, r.coin(), r.range(-56, 56) * 15, r.below(2) as u8, r.coin(), r.coin(), r.usize_below(4));
         probe(&mut t, &mut l, &cfg, tt, now, Some(text), "random", &mut sr);
     }
+    // --- a seconds field of 60 or 61 does not denote an instant at all: such a text is refused as a malformed date, wherever
+    // a lenient reading of it would fall relative to the window (just past either bound in particular)
+    for i in 0..tier.n(300, 10_000) {
+        let mut r = Rng::keyed(seed, "C04", "second-sixty", shard, i);
+        let now = Inst {
+            s: r.range(0, 4_000_000_000),
+            ns: *r.pick(&SUBSEC),
+        };
+        // the minute whose 60th second would sit on, just inside or just outside a bound
+        let bound: i64 = if r.coin() {
+            900
+        } else {
+            -900
+        };
+        let target = now.plus_s(bound + r.range(-2, 2));
+        let (y, mo, d, h, mi, _) = target.plus_s(-60).civil();
+        let frac = *r.pick(&["", ".5", ".000000001", ",999"]);
+        let text = if r.coin() {
+            format!("{:04}{:02}{:02}T{:02}{:02}{}{}Z", y, mo, d, h, mi, r.pick(&["60", "61"]), frac)
+        } else {
+            format!("{:04}-{:02}-{:02}T{:02}:{:02}:{}{}+00:00", y, mo, d, h, mi, r.pick(&["60", "61"]), frac)
+        };
+        probe(&mut t, &mut l, &cfg, target, now, Some(text), "second-sixty", &mut sr);
+    }
     // --- far outside: hours, days, years, and the distances at which 32-/64-bit second or nanosecond counters wrap
     const FAR_S: [i64; 16] = [
         3_600,
